@@ -60,6 +60,15 @@ struct sched {
 	 */
 	const void *visible[4];
 	int nvisible;
+	/*
+	 * Steps inside critical sections.  A thread that releases or resizes memory (the harness routes the
+	 * library's allocator through sched_inside()) while it holds only READ locks is preemptible there: in
+	 * correctly locked code whoever could interfere is blocked at its write lock, so nothing new can run;
+	 * where a read lock stands in for a write lock, or a structure is freed under a reader that is still
+	 * inside it, the interfering thread is enabled and the explorer runs it in the middle of the section.
+	 */
+	bool inside_points;
+	int held_r[SCHED_MAXT], held_w[SCHED_MAXT]; /* visible locks held per thread */
 };
 static struct sched SCHED;
 static __thread int SCHED_TID = -1;
@@ -99,14 +108,21 @@ static bool sched_enabled(int id)
 	return true;
 }
 
+static bool sched_visible(const void *lock);
+
 static void sched_grant(int id)
 {
 	struct sched_thread *t = &SCHED.t[id];
 
-	if (t->pend_kind == SP_RDLOCK)
+	if (t->pend_kind == SP_RDLOCK) {
 		sched_lock_get(t->pend_lock)->readers++;
-	else if (t->pend_kind == SP_WRLOCK)
+		if (sched_visible(t->pend_lock))
+			SCHED.held_r[id]++;
+	} else if (t->pend_kind == SP_WRLOCK) {
 		sched_lock_get(t->pend_lock)->writer = id + 1;
+		if (sched_visible(t->pend_lock))
+			SCHED.held_w[id]++;
+	}
 	t->pend_kind = SP_NONE;
 	t->pend_lock = NULL;
 }
@@ -187,6 +203,18 @@ static void sched_point(int kind, const void *lock)
 	sem_wait(&SCHED.t[me].sem); /* resumed: my pending action has been granted by whoever picked me */
 }
 
+/* a release / resize of memory by the running thread (see struct sched.inside_points) */
+static void sched_inside(void)
+{
+	int me = SCHED_TID;
+
+	if (!SCHED.active || !SCHED.inside_points || me < 0)
+		return;
+	if (SCHED.held_w[me] > 0 || SCHED.held_r[me] == 0)
+		return;
+	sched_point(SP_BOUNDARY, NULL);
+}
+
 /* worker threads persist across executions: creating a thread under ASan costs milliseconds */
 static sem_t SCHED_FREE_DONE;
 
@@ -229,6 +257,8 @@ static void sched_run(int n, void (**bodies)(int))
 	SCHED.nthreads = n;
 	SCHED.deadlock = false;
 	SCHED.points = 0;
+	memset(SCHED.held_r, 0, sizeof(SCHED.held_r));
+	memset(SCHED.held_w, 0, sizeof(SCHED.held_w));
 	if (!created) {
 		sem_init(&SCHED.done_sem, 0, 0);
 		sem_init(&SCHED_FREE_DONE, 0, 0);
@@ -291,8 +321,12 @@ int __wrap_pthread_rwlock_unlock(pthread_rwlock_t *l)
 
 		if (was_writer) {
 			m->writer = 0;
+			if (sched_visible(l) && SCHED.held_w[SCHED_TID] > 0)
+				SCHED.held_w[SCHED_TID]--;
 		} else if (m->readers > 0) {
 			m->readers--;
+			if (sched_visible(l) && SCHED.held_r[SCHED_TID] > 0)
+				SCHED.held_r[SCHED_TID]--;
 		} else {
 			fprintf(stderr, "HARNESS-ABORT unlock of a lock not held (thread %d)\n", SCHED_TID);
 			abort();
